@@ -22,7 +22,9 @@ from .translate import tables as T
 # ----------------------------------------------------------------------------------------------
 # closure DSL
 #   closure = {"files": [file...], "auto_pad": bool, "import_coredefs": bool, "tag": str}   files[0] = root
-#   file    = {"path": "sub/a.yaml", "imports": [file index...], "items": [item...]}
+#   file    = {"path": "sub/a.yaml", "imports": [file index...], "items": [item...],
+#              "options": {"IMPORT_COREDEFS"|"VALIDATE_ALIGNMENT"|"AUTO_PAD": bool}   (optional `compiler_options:` section;
+#                          the compiler honours the ROOT file's section only)}
 #   item    = ("const", name, expr) | ("str", name, value) | ("alias", name, target) | ("hid", name, v)
 #           | ("mid", name, v) | ("struct", name, body) | ("msg", name, id, body|None) | ("reserved", [id...])
 #   body    = ("fields", [(fname, type_text, expr|None)...]) | ("reuse", name)
@@ -81,7 +83,25 @@ def expr_eval(e, consts: Dict[str, int]):
     return a + b if k == "add" else a - b if k == "sub" else a * b
 
 
+def effective_options(cl) -> Dict[str, bool]:
+    """the options a compile of this closure runs with (pyrtma.compile.main): the root file's compiler_options section
+    over the defaults, the closure's auto_pad / import_coredefs acting like the command line flags (switch off only)"""
+    ro = cl["files"][0].get("options") or {}
+    return dict(AUTO_PAD=bool(cl.get("auto_pad", True) and ro.get("AUTO_PAD", True)),
+                IMPORT_COREDEFS=bool(cl.get("import_coredefs", False) and ro.get("IMPORT_COREDEFS", True)),
+                VALIDATE_ALIGNMENT=bool(ro.get("VALIDATE_ALIGNMENT", True)))
+
+
+def coq_ap(cl) -> str:
+    return "true" if effective_options(cl)["AUTO_PAD"] else "false"
+
+
 def closure_model_ok(cl) -> bool:
+    # Model/Emit.v has no notion of options: the root's AUTO_PAD is its `ap` argument, imported files' sections are ignored
+    # (as the compiler does), alignment validation is always on and the core definitions are never imported
+    eo = effective_options(cl)
+    if not eo["VALIDATE_ALIGNMENT"] or eo["IMPORT_COREDEFS"]:
+        return False
     for f in cl["files"]:
         for it in f["items"]:
             if it[0] == "const" and not expr_model_ok(it[2]):
@@ -114,6 +134,10 @@ def file_yaml(cl, k: int) -> str:
         return f["text"]               # a file without sections, given literally (comments only)
     here = os.path.dirname(f["path"])
     lines: List[str] = []
+    if f.get("options"):
+        lines.append("compiler_options:")
+        for k2, v2 in f["options"].items():
+            lines.append(f"  {k2}: {'true' if v2 else 'false'}")
     if f.get("imports"):
         lines.append("imports:")
         for j in f["imports"]:
@@ -858,7 +882,7 @@ def coq_case(cl: dict, obs: dict) -> str:
         x = "(0, %s, %s, %s, %s, %s, %s, %s, %s, %s, %s, %s)" % (
             _zl(obs["nums"]), _sl(obs["names"]), _el(obs["epy"]), _el(obs["ec"]), _el(obs["em"]), _el(obs["ejs"]),
             _zl(obs["vd"]), _zl(obs["spy"]), _zl(obs["sc"]), _zl(obs["sjs"]), _zl(obs["sm"]))
-    return f"({'true' if cl.get('auto_pad', True) else 'false'}, {closure_coq(cl)}, {x})"
+    return f"({coq_ap(cl)}, {closure_coq(cl)}, {x})"
 
 
 DIFF_NAMES = {1: "parse outcome (exception class)", 2: "parsed model numbers (ids, sizes, alignments, offsets, lengths)",
@@ -1071,6 +1095,20 @@ def random_closure(rng, natives: List[str], knobs: dict, nfiles: Optional[int] =
             counter["id"] = a + 6
             items.append(("reserved", rng.choice([[a], [a, (a + 2, a + 4)], [(a, a + 1), a + 5]])))
         files[k]["items"] = items
+    # compiler_options sections (drawn last: the rest of the closure does not depend on them).  Imported files: any option,
+    # either value - the compiler ignores them; the root: AUTO_PAD either value, VALIDATE_ALIGNMENT / IMPORT_COREDEFS as the
+    # closure is compiled anyway (validate on, no core import) - the other root values are directed cases
+    for k in range(n):
+        if rng.random() < (0.25 if k else 0.12):
+            names = ["IMPORT_COREDEFS", "VALIDATE_ALIGNMENT", "AUTO_PAD"]
+            rng.shuffle(names)
+            if k:
+                files[k]["options"] = {o: rng.random() < 0.5 for o in names[:rng.randint(1, 3)]}
+            else:
+                opts = {}
+                for o in names[:rng.randint(1, 3)]:
+                    opts[o] = {"IMPORT_COREDEFS": False, "VALIDATE_ALIGNMENT": True, "AUTO_PAD": rng.random() < 0.6}[o]
+                files[k]["options"] = opts
     return dict(files=files, auto_pad=auto_pad, import_coredefs=False)
 
 
